@@ -14,7 +14,7 @@ const NUM_LITS = [0, 1, 2, -1, 1.5, 42, 100, 1e21];
 const TYPED = ["Uint8Array", "Uint8ClampedArray", "Uint16Array", "Uint32Array", "Int8Array", "Int16Array", "Int32Array", "Float32Array", "Float64Array", "BigInt64Array", "BigUint64Array"];
 const DISC_KEYS = ["kind", "type", "_tag", "tag"];
 const DISC_VALS = ["a", "b", "c", "circle", "square", "ok", "err", "toString", "constructor", "x-y", "A"];
-const QUASIS = ["a", "b", "-", "_", "id:", "x.", "(", ")", "[", "$", "^", "|", "/", "?", "+", "*", " ", "{", "}", "é"];
+const QUASIS = ["a", "b", "-", "_", "id:", "x.", "(", ")", "[", "$", "^", "|", "/", "?", "+", "*", " ", "{", "}", "é", "\\", "`", "${x", "\n", "\\n"]; // (the last five need escaping inside a template: a backslash, a backtick, "${", a line break, backslash + n)
 
 export const DEFAULT_FEATURES = {
   nonJson: true, // Date, bigint, Map, Set, typed arrays
